@@ -103,6 +103,12 @@ static void float_fields(vt::J& j, double v) {
   } else
     d.assign(9, 0);
   j.num("fneg", signbit(v) ? 1 : 0).bytes("fdigits", d.data(), d.size()).num("fexp", exp10);
+  // and the exact bit pattern (big-endian byte order), judged for the literals the specification has exact values for
+  uint64_t bits;
+  memcpy(&bits, &v, 8);
+  uint8_t be[8];
+  for (int i = 0; i < 8; i++) be[i] = (uint8_t)(bits >> (56 - 8 * i));
+  j.bytes("fbits", be, 8);
 }
 static void float_getter(Arguments& a, bool by_name, const string& name, size_t pos, bool hasdef, bool dbl) {
   double ret = 0;
@@ -292,7 +298,9 @@ static void run_list(const vector<string>& tokens, vt::Rng& r, int ctor) {
 static void float_texts_sweep(int shard, int nshards) {
   static const vector<string> texts = {"0", "-0", "1", "-1", "1.5", "-2.25", ".5", "5.", "+3", "1e5", "1E5", "1e+5", "1e-5", "2.5e3", "123456789", "0.000123",
       "1e300", "1e-300", "1.7976931348623157e308", "2.2250738585072014e-308", "1e-310", "4.94e-324", "1e-400", "-1e-400", "1e999", "-1e999",
-      "3.4028235e38", "1e39", "1e-46", " 1.5", "\t2", "1.5 ", "1.5x", "x1.5", "1e", "1e+", "e5", ".", "", "-", "+", "--1", "1..5", "1.5.2", "1,5", "inf", "-inf",
+      "3.4028235e38", "1e39", "1e-46",
+      // decimal texts just past / exactly at the midpoint of two adjacent doubles (one correct rounding decides)
+      "9007199254740993.0001", "18446744073709553665", "1.00000000000000011102230246251565404236316680908203126", "9007199254740993", "0.1", " 1.5", "\t2", "1.5 ", "1.5x", "x1.5", "1e", "1e+", "e5", ".", "", "-", "+", "--1", "1..5", "1.5.2", "1,5", "inf", "-inf",
       "infinity", "nan", "NaN", "INF", "0x10", "0x1p4", "1_000", "1e5e5", "12abc", "١٢"};
   for (size_t i = 0; i < texts.size(); i++) {
     if ((int)(i % nshards) != shard) continue;
